@@ -5,7 +5,8 @@ cd /verif
 rdir=$(VERIF_REPO=$tree python3 -c "import sys; sys.path.insert(0,'/verif/lib'); import vdriver; print(vdriver.BUILD)")/replays
 for d in seeded/${pre}*/; do
   n=$(basename $d)
-  id=$(python3 -c "import json;print(json.load(open('$d/meta.json'))['caught_by'][0])")
+  id=$(python3 -c "import json;c=json.load(open('$d/meta.json'))['caught_by'];print(c[0] if c else '')")
+  if [ -z "$id" ]; then echo "$n -> recorded as not caught (see meta.json)"; continue; fi
   rm -rf $rdir/$id
   res=$(tools/try_mutant_alt.sh $tree /verif/$d/patch.diff $tier $id 2>&1 | grep -E "^$id rc=" | head -n 1 | cut -c1-120)
   echo "$n -> $res"
